@@ -168,7 +168,8 @@ def gen_case(rng, cfg, kind):
         elif r < 0.8:
             free = [u for u in universe if u not in occ]
             if free:
-                batch.append((rng.choice(free), nkeys))  # carries a free index
+                # half of the time one of the SMALLEST free indices: the ones an allocator hands to new objects first
+                batch.append((rng.choice(sorted(free)[:4]) if rng.random() < 0.5 else rng.choice(free), nkeys))  # carries a free index
                 nkeys += 1
         elif r < 0.9 and table:
             i, k = rng.choice(table)
